@@ -47,8 +47,11 @@ Tamper(i) ==
   /\ assets' = Append(assets, [kind |-> "tampered", ings |-> <<>>, arch |-> 0, fl |-> "sync", base |-> i])
   /\ hist' = Append(hist, [op |-> "T", ings |-> <<>>, arch |-> 0, fl |-> "sync", i |-> i])
   /\ UNCHANGED legacy
-Read(i, fl) ==
-  /\ hist' = Append(hist, [op |-> "R", ings |-> <<>>, arch |-> 0, fl |-> fl, i |-> i])
+\* a read runs under a trust profile of its own context: "std" (the anchors cover the signer), "lean" (no anchor covers it) or
+\* "rich" (the same anchors as lean plus user anchors that cover it).  Profiles of different contexts must not leak into each other.
+Profiles == {"std", "lean", "rich"}
+Read(i, fl, pf) ==
+  /\ hist' = Append(hist, [op |-> "R", ings |-> <<>>, arch |-> (CASE pf = "std" -> 0 [] pf = "lean" -> 1 [] OTHER -> 2), fl |-> fl, i |-> i])
   /\ UNCHANGED <<assets, legacy>>
 Legacy ==
   /\ ~legacy /\ legacy' = TRUE
@@ -58,7 +61,7 @@ Legacy ==
 More == Len(hist) < MaxOps
 DoSign   == More /\ \E ings \in IngLists, arch \in 0..MaxArch, fl \in Flavours : Sign(ings, arch, fl)
 DoTamper == More /\ \E i \in 1..N : Tamper(i)
-DoRead   == More /\ \E i \in 1..N, fl \in Flavours : Read(i, fl)
+DoRead   == More /\ \E i \in 1..N, fl \in Flavours, pf \in Profiles : Read(i, fl, pf)
 DoLegacy == More /\ Legacy
 Next == DoSign \/ DoTamper \/ DoRead \/ DoLegacy
 Spec == Init /\ [][Next]_vars
@@ -82,6 +85,9 @@ Desc(as, i) == LET r == Root(as, i) IN
   [title |-> r, state |-> State(as, i), nman |-> Cardinality(Manifests(as, i)),
    ings |-> [k \in 1..Len(as[r].ings) |-> IngView(as, as[r].ings[k])]]
 
+\* what a read under a profile reports as state: trust comes from the reading context alone
+StateUnder(as, i, pf) == IF as[i].kind = "tampered" THEN "Invalid" ELSE IF pf = "lean" THEN "Valid" ELSE "Trusted"
+ProfileLocal == \A i \in 1..N : StateUnder(assets, i, "lean") # "Trusted"
 Plainly(as) == [i \in 1..Len(as) |-> [as[i] EXCEPT !.arch = 0, !.fl = "sync"]]
 
 \* ---- properties of the design
